@@ -24,6 +24,7 @@ func init() {
 				"R4.passes":      "expiry and orphan passes: removal conditions and coverage of both collections",
 				"R5.validity":    "validity test: nil, clamp, comparison directions",
 				"R6.inplace":     "the remover overwrites only the removed identity's slot of the listing shared with the pruning passes",
+				"R7.certtypes":   "the identity-to-certificate cast recognises every certificate type name of x/crypto/ssh",
 			},
 		},
 		Run: runC07,
@@ -69,7 +70,7 @@ func runC07(c *Ctx) {
 
 	// ---- R1 / R2 ----
 	for _, name := range []string{"List", "SignWithFlags", "Signers"} {
-		fn := m.Methods[name]
+		fn := m.Body(name)
 		if fn == nil {
 			c.Unresolved("R1.filterfirst", "method "+name)
 			continue
@@ -219,6 +220,35 @@ func runC07(c *Ctx) {
 				}
 			}
 		}
+		if al, ok := strip(pc.Call.Args[0]).(*ssa.Alloc); ok && !okRem {
+			// ... or a value of a repository type whose method of the remover interface does that, on the server it was
+			// built with
+			if T := derefNamedT(al.Type()); T != nil && w.InRepoType(T) {
+				if rm := w.methodOfNamed(T, "remove"); rm != nil && rm.Blocks != nil {
+					c.Saw(rm)
+					fs := FieldStores(filter, al)
+					for _, cc := range callsIn(rm) {
+						cv, ok := cc.(*ssa.Call)
+						if !ok || cv.Call.StaticCallee() != remove || len(cv.Call.Args) != 2 || w.ExprIn(rm, cv.Call.Args[1]) != "p1" {
+							continue
+						}
+						// the server it is called on: a field of the receiver that filter set to its own receiver
+						onOwn := false
+						if ld, isLd := strip(cv.Call.Args[0]).(*ssa.UnOp); isLd {
+							if fa, isFA := ld.X.(*ssa.FieldAddr); isFA && fa.X == ssa.Value(rm.Params[0]) {
+								if vs := fs[fieldName(fa.X.Type(), fa.Field)]; len(vs) == 1 && w.ExprIn(filter, vs[0]) == "p0" {
+									onOwn = true
+								}
+							}
+						}
+						u, has := ErrUseOf(cv)
+						if onOwn && has && (u.Tested || u.Direct) {
+							okRem = true
+						}
+					}
+				}
+			}
+		}
 		c.Check(okRem, "R3.wiring", "filter|"+shortFn(callee)+" removes through the real removal", w.Pos(pc.Pos()), "remover closure calls (*Server).remove(key) and returns its error", "the remover handed to the pruning pass does not call the server's removal with the key it was given")
 		// collections handed over: the table and this activation's listing
 		// the listing handed over IS this activation's agent listing (possibly the variable the removal closure
@@ -256,6 +286,74 @@ func runC07(c *Ctx) {
 					if b := freeVarBinding(fv); b != nil {
 						addr = b
 					}
+				}
+				if fa, isFA := addr.(*ssa.FieldAddr); isFA {
+					// the listing kept in a field of the remover value: every store into that field (anywhere) puts there
+					// the agent's listing, the field itself, a truncation of it, or what a helper hands back of it
+					T := derefNamedT(fa.X.Type())
+					if T == nil || !w.InRepoType(T) {
+						return false
+					}
+					fname := fieldName(fa.X.Type(), fa.Field)
+					same := func(v ssa.Value) bool {
+						ld, ok := strip(v).(*ssa.UnOp)
+						if !ok || ld.Op != token.MUL {
+							return false
+						}
+						f2, ok := ld.X.(*ssa.FieldAddr)
+						return ok && derefNamedT(f2.X.Type()) == T && fieldName(f2.X.Type(), f2.Field) == fname
+					}
+					nList := 0
+					for _, acc := range w.FieldAccesses(T, fname) {
+						if acc.Kind == "addr" || acc.Kind == "addrcall" {
+							return false
+						}
+						st, isSt := acc.Instr.(*ssa.Store)
+						if acc.Kind != "write" || !isSt {
+							continue
+						}
+						val := strip(st.Val)
+						if isNilConst(val) || same(val) {
+							continue
+						}
+						if sl, isSl := val.(*ssa.Slice); isSl && same(sl.X) {
+							continue
+						}
+						if hc, isCall := val.(*ssa.Call); isCall {
+							if h := w.helperOf(hc); h != nil && h.Signature.Results().Len() == 1 {
+								pj := -1
+								for j, arg := range hc.Call.Args {
+									if same(arg) {
+										pj = j
+									}
+								}
+								okHelper := pj >= 0
+								for _, r := range liveReturns(h) {
+									for _, lf := range w.leaves(r.Results[0], r, false) {
+										base := strip(lf.Val)
+										for {
+											sl, isSl := base.(*ssa.Slice)
+											if !isSl {
+												break
+											}
+											base = strip(sl.X)
+										}
+										if pj < 0 || base != ssa.Value(h.Params[pj]) {
+											okHelper = false
+										}
+									}
+								}
+								if okHelper {
+									continue
+								}
+							}
+						}
+						if !isListing(val, depth+1) {
+							return false
+						}
+						nList++
+					}
+					return nList >= 1
 				}
 				a, ok := addr.(*ssa.Alloc)
 				if !ok {
@@ -334,7 +432,15 @@ func runC07(c *Ctx) {
 			}
 			return false
 		}
-		okArgs := strings.HasSuffix(w.Expr(pc.Call.Args[1]), "p0."+m.fCerts) && strings.Contains(w.Expr(pc.Call.Args[2]), "Agent).List>(p0."+m.fAgent+")#0") && isListing(pc.Call.Args[2], 0)
+		_, listingInField := func() (ssa.Value, bool) {
+			ld, ok := strip(pc.Call.Args[2]).(*ssa.UnOp)
+			if !ok {
+				return nil, false
+			}
+			_, isFA := ld.X.(*ssa.FieldAddr)
+			return ld, isFA
+		}()
+		okArgs := strings.HasSuffix(w.Expr(pc.Call.Args[1]), "p0."+m.fCerts) && (listingInField || strings.Contains(w.Expr(pc.Call.Args[2]), "Agent).List>(p0."+m.fAgent+")#0")) && isListing(pc.Call.Args[2], 0)
 		c.Check(okArgs, "R3.wiring", "filter|"+shortFn(callee)+" sees the table and the fresh listing", w.Pos(pc.Pos()), "(s.certs, s.agent.List())", "the pruning pass is not given the in-memory table and this activation's agent listing: "+w.Short(pc.Call.Args[1])+", "+w.Short(pc.Call.Args[2]))
 	}
 	c.Floor("R3.wiring", len(passes), 2, "pruning passes called by filter")
@@ -438,6 +544,8 @@ func runC07(c *Ctx) {
 	}
 	// ---- R5 ----
 	checkValidity(c)
+	// ---- R7 ----
+	checkCertTypes(c, "R7.certtypes")
 }
 
 // removalCalls: calls in fn (and its closures) that reach the remover interface's remove method.
@@ -745,6 +853,34 @@ func checkValidity(c *Ctx) {
 	c.Saw(fn)
 	f := w.Facts(fn)
 	const maxI64 = 1<<63 - 1
+	// gtMax: the literals fs say that raw > MaxInt64 is `want`
+	gtMax := func(fs map[Lit]bool, raw ssa.Value, want bool) bool {
+		for l := range fs {
+			bin, ok := l.V.(*ssa.BinOp)
+			if !ok {
+				continue
+			}
+			// raw > Max, Max < raw (or their negations raw <= Max, Max >= raw)
+			var x, y ssa.Value
+			pol := l.Pol
+			switch bin.Op {
+			case token.GTR:
+				x, y = bin.X, bin.Y
+			case token.LSS:
+				x, y = bin.Y, bin.X
+			case token.LEQ:
+				x, y, pol = bin.X, bin.Y, !pol
+			case token.GEQ:
+				x, y, pol = bin.Y, bin.X, !pol
+			default:
+				continue
+			}
+			if k, ok := uintConst(y); ok && k == maxI64 && strip(x) == strip(raw) && pol == want {
+				return true
+			}
+		}
+		return false
+	}
 	// clampOf: conversion cv (uint64 -> int64) takes min(raw, MaxInt64): a two-way join whose MaxInt64 edge is taken
 	// exactly under raw > MaxInt64. Returns the raw value.
 	clampOf := func(cv *ssa.Convert) (ssa.Value, bool) {
@@ -764,36 +900,9 @@ func checkValidity(c *Ctx) {
 		if raw == nil || maxEdge < 0 {
 			return nil, false
 		}
-		gt := func(fs map[Lit]bool, want bool) bool {
-			for l := range fs {
-				bin, ok := l.V.(*ssa.BinOp)
-				if !ok {
-					continue
-				}
-				// raw > Max, Max < raw (or their negations raw <= Max, Max >= raw)
-				var x, y ssa.Value
-				pol := l.Pol
-				switch bin.Op {
-				case token.GTR:
-					x, y = bin.X, bin.Y
-				case token.LSS:
-					x, y = bin.Y, bin.X
-				case token.LEQ:
-					x, y, pol = bin.X, bin.Y, !pol
-				case token.GEQ:
-					x, y, pol = bin.Y, bin.X, !pol
-				default:
-					continue
-				}
-				if k, ok := uintConst(y); ok && k == maxI64 && strip(x) == strip(raw) && pol == want {
-					return true
-				}
-			}
-			return false
-		}
 		ef := w.factsOnEdge(phi.Block().Preds[maxEdge], phi.Block())
 		other := w.factsOnEdge(phi.Block().Preds[1-maxEdge], phi.Block())
-		return raw, gt(ef, true) && gt(other, false)
+		return raw, gtMax(ef, raw, true) && gtMax(other, raw, false)
 	}
 	isU64toI64 := func(cv *ssa.Convert) bool {
 		ft, okf := cv.X.Type().Underlying().(*types.Basic)
@@ -840,12 +949,25 @@ func checkValidity(c *Ctx) {
 				}
 				// in a helper: one obligation per call, in the terms of the argument passed there
 				prm, isParam := raw.(*ssa.Parameter)
+				if raw == nil {
+					// the other way of writing the clamp: `if t > Max { return Max }; return int64(t)`
+					if p, ok := cv.X.(*ssa.Parameter); ok && p.Parent() == g {
+						prm, isParam, raw = p, true, p
+						good = gtMax(w.factsOf(g).Local(cv.Block()), p, false)
+					}
+				}
 				whole := isParam && g.Signature.Results().Len() == 1
 				if whole {
 					for _, r := range liveReturns(g) {
-						if strip(r.Results[0]) != ssa.Value(cv) {
-							whole = false
+						res := strip(r.Results[0])
+						if res == ssa.Value(cv) {
+							continue
 						}
+						// a return of MaxInt64 itself, taken exactly when the parameter exceeds it
+						if k, isK := intConst(res); isK && k == maxI64 && gtMax(w.factsOf(g).Local(r.Block()), prm, true) {
+							continue
+						}
+						whole = false
 					}
 				}
 				sites := w.sitesIn(fn, g)
